@@ -232,7 +232,32 @@ def _templates(ctx):
     return out
 
 
+def encoders_refuse_only_without_prefix(ctx):
+    """an address encoder answers None exactly when the network has no prefix / HRP of that kind -- the same condition under which the
+    parser of that kind accepts nothing: an encoder that refuses on anything else (an allow-list of HRPs, a size) leaves scripts
+    without an address on networks whose parser still accepts the corresponding strings"""
+    table = (("AddressAPI.for_p2pkh", "self._address_prefix is None"), ("AddressAPI.for_p2sh", "self._pay_to_script_prefix is None"),
+             ("AddressAPI.for_p2pkh_wit", "self._bech32_hrp is None"), ("AddressAPI.for_p2sh_wit", "self._bech32_hrp is None"), ("AddressAPI.for_p2tr", "self._bech32_hrp is None"))
+    for nm, atom in table:
+        g = ctx.func(AAPI, nm)
+        w = sym.walk(ctx, g)
+        nones = [e for e in w.exits if e.kind == "return" and isinstance(e.value, ast.Constant) and e.value.value is None]
+        if not nones:
+            ctx.undecided("encoder-refuses-only-without-prefix:%s" % nm.split(".")[-1], ctx.where(g), "%s has no `return None` exit this rule can read" % nm)
+            continue
+        fr = gi.f_or(*[e.cond for e in nones])
+        ops = [o for o in (gi.f_opaques(fr) if fr not in (True, False) else []) if isinstance(o, str)]
+        others = [o for o in ops if o != atom and o != "not truthy(%s)" % atom[:-8] and not o.startswith("truthy(%s" % atom[:-8])]
+        if atom in ops and not others:
+            ctx.check(sym._equiv(fr, ("op", atom)), "encoder-refuses-only-without-prefix:%s" % nm.split(".")[-1], ctx.where(g), "%s answers None under `%s`, not exactly when `%s`" % (nm, str(fr)[:80], atom), sample={"encoder": nm, "refuses_when": atom})
+        elif others and sym._sat_formula(gi.f_and(fr, ("not", ("op", atom)))) and atom in ops:
+            ctx.bad("encoder-refuses-only-without-prefix:%s" % nm.split(".")[-1], ctx.where(g, nones[0].node), "%s also answers None under `%s` although the network has the prefix / HRP: scripts of that kind get no address there, while the parser still accepts the strings" % (nm, others[0][:70]))
+        else:
+            ctx.undecided("encoder-refuses-only-without-prefix:%s" % nm.split(".")[-1], ctx.where(g), "%s answers None under `%s`; this rule reads `%s`" % (nm, [o[:40] for o in ops][:3], atom))
+
+
 def c08_3(ctx):
+    encoders_refuse_only_without_prefix(ctx)
     tp = _templates(ctx)
     f = ctx.func(CAPI, "ContractAPI.info_for_script")
     # (template text, returned dict) pairs: every exit returning {'type': T, field: <blob>}; the template is the one the
